@@ -3,6 +3,7 @@
 package x509
 
 import (
+	"github.com/zmap/zcrypto/encoding/asn1"
 	vr "github.com/zmap/zcrypto/internal/verifrt"
 )
 
@@ -87,3 +88,53 @@ func VerifH_C02_verify_hostname_total() { VerifH_C09_verify_hostname_bytes() }
 
 // verif: covers=done
 func VerifH_C02_pool_insertion_total() { VerifH_C08_pool_history() }
+
+// C02: the certificate-policies JSON view is total. The pre-state is an arbitrary
+// CertificatePoliciesData satisfying the representation invariant parseCertificate
+// establishes (x509.go, certificate-policies branch): every per-policy slice has one
+// entry per policy; within a policy each user notice contributes, independently, at
+// most one explicit text and at most one (organisation, numbers) pair, appended in
+// lock step; each CPS qualifier contributes one URI.
+// verif: covers=done
+func VerifH_C02_policies_json() {
+	maxPolicies, maxNotices := 1, 3
+	if vr.Tier() == 1 {
+		maxPolicies, maxNotices = 2, 4
+	}
+	n := vr.Int("policies", 0, maxPolicies)
+	cp := &CertificatePoliciesData{
+		PolicyIdentifiers:     make([]asn1.ObjectIdentifier, n),
+		QualifierId:           make([][]asn1.ObjectIdentifier, n),
+		CPSUri:                make([][]string, n),
+		ExplicitTexts:         make([][]string, n),
+		NoticeRefOrganization: make([][]string, n),
+		NoticeRefNumbers:      make([][]NoticeNumber, n),
+		UserNotices:           make([][]UserNotice, n),
+	}
+	for i := 0; i < n; i++ {
+		cp.PolicyIdentifiers[i] = asn1.ObjectIdentifier{2, 5}
+		notices := vr.Int("notices", 0, maxNotices)
+		for j := 0; j < notices; j++ {
+			un := UserNotice{}
+			if vr.Bool("hasText") {
+				text := "t"
+				cp.ExplicitTexts[i] = append(cp.ExplicitTexts[i], text)
+				un.ExplicitText = &text
+			}
+			if vr.Bool("hasRef") {
+				cp.NoticeRefOrganization[i] = append(cp.NoticeRefOrganization[i], "o")
+				cp.NoticeRefNumbers[i] = append(cp.NoticeRefNumbers[i], NoticeNumber{1})
+				un.NoticeReference = &NoticeReference{Organization: "o", NoticeNumbers: NoticeNumber{1}}
+			}
+			cp.UserNotices[i] = append(cp.UserNotices[i], un)
+		}
+		if vr.Bool("hasCPS") {
+			cp.CPSUri[i] = append(cp.CPSUri[i], "u")
+		}
+	}
+	var err error
+	panicked := vr.MayPanic(func() { _, err = cp.MarshalJSON() })
+	vr.Assert(!panicked, "the certificate-policies JSON view does not panic")
+	vr.Assert(err == nil, "the certificate-policies JSON view does not fail")
+	vr.Cover("done")
+}
